@@ -42,7 +42,7 @@ class ProtectionType(TLV):
     def unpack(cls, value):
         """
         """
-        value = ord(value[0])
+        value = ord(value[0:1])
         if value == 0x01:
             return cls(value='Extra Traffic')
         if value == 0x02:
